@@ -49,6 +49,18 @@ class Result(object):
         self.stats[name] = self.stats.get(name, 0) + n
 
 
+def run_spec(mod, spec):
+    """mod.run(spec); a model the library did not build as specified is a violation of whatever is being checked."""
+    try:
+        return mod.run(spec)
+    except seams.SutMisbehaviour as e:
+        res = Result()
+        res.count("runs")
+        res.add("model", "%s.model_not_built_as_specified.%s" % (mod.ID, e.kind), str(e), None)
+        res.digest = "build"
+        return res
+
+
 def prop_module(pid):
     return importlib.import_module("dst.props." + pid.lower())
 
@@ -83,7 +95,7 @@ def _work(args):
             if deadline and time.time() > deadline:
                 break
             spec = make_spec(mod, base_seed, i, tier)
-            res = mod.run(spec)
+            res = run_spec(mod, spec)
             agg["n"] += 1
             agg["last"] = i
             agg["steps"] += res.steps
@@ -162,7 +174,7 @@ def minimise(mod, spec, key, budget=400):
 
     def still(s):
         s = dict(s)
-        r = mod.run(s)
+        r = run_spec(mod, s)
         return any(v["key"] == key for v in r.violations)
 
     extra = getattr(mod, "extra_candidates", None)
@@ -288,7 +300,7 @@ def check(pid, tier="quick", base_seed=0, workers=None, n=None, wall_cap=None):
         if budget_keys > 0:
             budget_keys -= 1
             spec_min, evals = minimise(mod, spec, key)
-            r = mod.run(dict(spec_min))
+            r = run_spec(mod, dict(spec_min))
             vv = [x for x in r.violations if x["key"] == key]
             vmin = vv[0] if vv else v
             path = write_replay(pid, key, spec_min, spec, vmin, base_seed, i, r.digest)
@@ -315,7 +327,7 @@ def replay(path):
     env.setup()
     seams.install()
     mod = prop_module(rp["property"])
-    r = mod.run(dict(rp["spec"]))
+    r = run_spec(mod, dict(rp["spec"]))
     hit = [v for v in r.violations if v["key"] == rp["key"]]
     if hit:
         v = hit[0]
